@@ -26,6 +26,27 @@ pub open spec fn group(b: Seq<u8>) -> Seq<char> {
 pub open spec fn word24(b: Seq<u8>) -> int {
     (b[0] as int) * 65536 + (if b.len() > 1 { b[1] as int } else { 0 }) * 256 + (if b.len() > 2 { b[2] as int } else { 0 })
 }
+pub proof fn lemma_word24_sextets(x: u8, y: u8, z: u8)
+    ensures ({
+        let w = (x as u32) * 65536 + (y as u32) * 256 + (z as u32);
+        &&& w / 262144 == (x as u32) / 4
+        &&& (w / 4096) % 64 == ((x as u32) % 4) * 16 + (y as u32) / 16
+        &&& (w / 64) % 64 == ((y as u32) % 16) * 4 + (z as u32) / 64
+        &&& w % 64 == (z as u32) % 64
+    }),
+{
+    let a = x as u32;
+    let b = y as u32;
+    let c = z as u32;
+    assert(a < 256 && b < 256 && c < 256 ==> ({
+        let w = a * 65536 + b * 256 + c;
+        &&& w / 262144 == a / 4
+        &&& (w / 4096) % 64 == (a % 4) * 16 + b / 16
+        &&& (w / 64) % 64 == (b % 16) * 4 + c / 64
+        &&& w % 64 == c % 64
+    })) by (bit_vector);
+}
+
 pub proof fn lemma_group_is_rfc_word(b: Seq<u8>)
     requires 1 <= b.len() <= 3,
     ensures
@@ -34,14 +55,12 @@ pub proof fn lemma_group_is_rfc_word(b: Seq<u8>)
         b.len() > 1 ==> group(b)[2] == alpha((word24(b) / 64) % 64),
         b.len() > 2 ==> group(b)[3] == alpha(word24(b) % 64),
 {
-    let b0 = b[0] as int;
-    let b1 = if b.len() > 1 { b[1] as int } else { 0 };
-    let b2 = if b.len() > 2 { b[2] as int } else { 0 };
-    let w = word24(b);
-    assert(w == b0 * 65536 + b1 * 256 + b2);
-    assert(w / 262144 == b0 / 4 && (w / 4096) % 64 == (b0 % 4) * 16 + b1 / 16
-        && (w / 64) % 64 == (b1 % 16) * 4 + b2 / 64 && w % 64 == b2 % 64) by (nonlinear_arith)
-        requires w == b0 * 65536 + b1 * 256 + b2, 0 <= b0 < 256, 0 <= b1 < 256, 0 <= b2 < 256;
+    let x = b[0];
+    let y = if b.len() > 1 { b[1] } else { 0u8 };
+    let z = if b.len() > 2 { b[2] } else { 0u8 };
+    lemma_word24_sextets(x, y, z);
+    let w = (x as u32) * 65536 + (y as u32) * 256 + (z as u32);
+    assert(w == word24(b));
 }
 
 pub open spec fn b64(s: Seq<u8>) -> Seq<char>
@@ -100,5 +119,232 @@ pub proof fn lemma_b64_snoc(s: Seq<u8>, k: int, n: int)
             assert(b.subrange(3, b.len() as int) =~= t.subrange(0, k - 3));
         }
         assert(b64(a) =~= b64(b) + group(s.subrange(k, k + n)));
+    }
+}
+
+// ===== decoding side =====
+pub open spec fn in_alpha(c: char) -> bool {
+    ('A' <= c && c <= 'Z') || ('a' <= c && c <= 'z') || ('0' <= c && c <= '9') || c == '+' || c == '/'
+}
+
+pub open spec fn sextet(c: char) -> int {
+    if 'A' <= c && c <= 'Z' { (c as int) - ('A' as int) }
+    else if 'a' <= c && c <= 'z' { (c as int) - ('a' as int) + 26 }
+    else if '0' <= c && c <= '9' { (c as int) - ('0' as int) + 52 }
+    else if c == '+' { 62 } else { 63 }
+}
+
+pub proof fn lemma_sextet_alpha(n: int)
+    requires 0 <= n < 64,
+    ensures in_alpha(alpha(n)), sextet(alpha(n)) == n, alpha(n) != '=', (alpha(n) as u32) < 128,
+{
+}
+
+pub proof fn lemma_alpha_sextet(c: char)
+    requires in_alpha(c),
+    ensures 0 <= sextet(c) < 64, alpha(sextet(c)) == c, c != '=', (c as u32) < 128,
+{
+}
+
+pub proof fn lemma_in_alpha_is_in_alphabet(c: char)
+    ensures in_alpha(c) <==> in_alphabet(c),
+{
+    if in_alpha(c) {
+        lemma_alpha_sextet(c);
+        assert(0 <= sextet(c) < 64 && alpha(sextet(c)) == c);
+    }
+    if in_alphabet(c) {
+        let n = choose|n: int| 0 <= n < 64 && alpha(n) == c;
+        lemma_sextet_alpha(n);
+    }
+}
+
+// a 4-character group as the decoder reads it: the number of '=' decides how many bytes it carries
+pub open spec fn pad_count(t: Seq<char>) -> nat { count_char(t, '=') }
+
+pub open spec fn valid_group(t: Seq<char>) -> bool {
+    t.len() == 4 && pad_count(t) <= 2
+    && forall|i: int| 0 <= i < 4 - pad_count(t) ==> in_alpha(#[trigger] t[i])
+}
+
+pub open spec fn ungroup(t: Seq<char>) -> Seq<u8> {
+    let s0 = sextet(t[0]);
+    let s1 = sextet(t[1]);
+    let s2 = sextet(t[2]);
+    let s3 = sextet(t[3]);
+    let b0 = (s0 * 4 + s1 / 16) as u8;
+    let b1 = ((s1 % 16) * 16 + s2 / 4) as u8;
+    let b2 = ((s2 % 4) * 64 + s3) as u8;
+    if pad_count(t) == 2 { seq![b0] } else if pad_count(t) == 1 { seq![b0, b1] } else { seq![b0, b1, b2] }
+}
+
+pub proof fn lemma_count4(t: Seq<char>, c: char)
+    requires t.len() == 4,
+    ensures count_char(t, c) == (if t[0] == c { 1nat } else { 0 }) + (if t[1] == c { 1nat } else { 0 })
+        + (if t[2] == c { 1nat } else { 0 }) + (if t[3] == c { 1nat } else { 0 }),
+{
+    reveal_with_fuel(count_char, 5);
+    let t3 = t.drop_last();
+    let t2 = t3.drop_last();
+    let t1 = t2.drop_last();
+    assert(t1.drop_last().len() == 0);
+    assert(t3.last() == t[2] && t2.last() == t[1] && t1.last() == t[0]);
+}
+
+pub proof fn lemma_ungroup_group(b: Seq<u8>)
+    requires 1 <= b.len() <= 3,
+    ensures valid_group(group(b)), ungroup(group(b)) == b, pad_count(group(b)) == 3 - b.len(),
+{
+    let g = group(b);
+    let b0 = b[0] as int;
+    let b1 = if b.len() > 1 { b[1] as int } else { 0 };
+    let b2 = if b.len() > 2 { b[2] as int } else { 0 };
+    lemma_sextet_alpha(b0 / 4);
+    lemma_sextet_alpha((b0 % 4) * 16 + b1 / 16);
+    lemma_sextet_alpha((b1 % 16) * 4 + b2 / 64);
+    lemma_sextet_alpha(b2 % 64);
+    lemma_count4(g, '=');
+    assert(ungroup(g) =~= b);
+}
+
+pub open spec fn valid64(t: Seq<char>) -> bool
+    decreases t.len()
+{
+    if t.len() == 0 { true }
+    else if t.len() < 4 { false }
+    else { valid_group(t.subrange(0, 4)) && valid64(t.subrange(4, t.len() as int)) }
+}
+
+pub open spec fn unb64(t: Seq<char>) -> Seq<u8>
+    decreases t.len()
+{
+    if t.len() < 4 { Seq::empty() } else { ungroup(t.subrange(0, 4)) + unb64(t.subrange(4, t.len() as int)) }
+}
+
+pub open spec fn ok_char(c: char) -> bool { in_alpha(c) || c == '=' }
+
+pub open spec fn all_ok_chars(t: Seq<char>) -> bool { forall|i: int| 0 <= i < t.len() ==> ok_char(#[trigger] t[i]) }
+
+pub proof fn lemma_group_props(b: Seq<u8>)
+    requires 1 <= b.len() <= 3,
+    ensures group(b).len() == 4, is_ascii_seq(group(b)), all_ok_chars(group(b)),
+{
+    let b0 = b[0] as int;
+    let b1 = if b.len() > 1 { b[1] as int } else { 0 };
+    let b2 = if b.len() > 2 { b[2] as int } else { 0 };
+    lemma_sextet_alpha(b0 / 4);
+    lemma_sextet_alpha((b0 % 4) * 16 + b1 / 16);
+    lemma_sextet_alpha((b1 % 16) * 4 + b2 / 64);
+    lemma_sextet_alpha(b2 % 64);
+}
+
+// the encoder's output is ASCII, made of valid groups, and decodes (as mathematics) to the input
+pub proof fn lemma_b64_inverse(x: Seq<u8>)
+    ensures
+        b64(x).len() % 4 == 0, is_ascii_seq(b64(x)), valid64(b64(x)), unb64(b64(x)) == x, all_ok_chars(b64(x)),
+    decreases x.len()
+{
+    if x.len() == 0 {
+        assert(unb64(b64(x)) =~= x);
+    } else if x.len() <= 3 {
+        lemma_ungroup_group(x);
+        lemma_group_props(x);
+        let g = group(x);
+        assert(g.subrange(0, 4) =~= g);
+        assert(g.subrange(4, 4).len() == 0);
+        assert(unb64(g.subrange(4, 4)) =~= Seq::<u8>::empty());
+        assert(unb64(g) =~= x);
+        assert(valid64(g.subrange(4, 4)));
+    } else {
+        let h = x.subrange(0, 3);
+        let r = x.subrange(3, x.len() as int);
+        lemma_ungroup_group(h);
+        lemma_group_props(h);
+        lemma_b64_inverse(r);
+        let t = b64(x);
+        assert(t == group(h) + b64(r));
+        assert(t.subrange(0, 4) =~= group(h));
+        assert(t.subrange(4, t.len() as int) =~= b64(r));
+        assert(unb64(t) =~= h + r);
+        assert(h + r =~= x);
+    }
+}
+
+pub open spec fn ind(t: Seq<char>, i: int, c: char) -> nat { if i < t.len() && t[i] == c { 1 } else { 0 } }
+
+pub proof fn lemma_count_small(t: Seq<char>, c: char)
+    requires t.len() <= 4,
+    ensures count_char(t, c) == ind(t, 0, c) + ind(t, 1, c) + ind(t, 2, c) + ind(t, 3, c),
+    decreases t.len()
+{
+    if t.len() > 0 {
+        lemma_count_small(t.drop_last(), c);
+        let d = t.drop_last();
+        assert(forall|i: int| 0 <= i < d.len() ==> d[i] == t[i]);
+    }
+}
+
+// a valid group consists of alphabet characters followed by exactly pad_count '=' characters
+pub proof fn lemma_valid_group_chars(t: Seq<char>)
+    requires valid_group(t),
+    ensures all_ok_chars(t),
+{
+    lemma_count_small(t, '=');
+    assert forall|i: int| 0 <= i < t.len() implies ok_char(#[trigger] t[i]) by {
+        if i < 4 - pad_count(t) {
+        } else {
+            assert(in_alpha(t[0]) && in_alpha(t[1]));
+            if pad_count(t) == 1 { assert(in_alpha(t[2])); }
+            if pad_count(t) == 0 { assert(in_alpha(t[2])); assert(in_alpha(t[3])); }
+        }
+    }
+}
+
+pub proof fn lemma_valid64_chunk(t: Seq<char>, k: int)
+    requires valid64(t), 0 <= k < t.len(), k % 4 == 0,
+    ensures k + 4 <= t.len(), valid_group(t.subrange(k, k + 4)), t.len() % 4 == 0,
+    decreases k
+{
+    if k == 0 {
+        lemma_valid64_len(t);
+    } else {
+        let r = t.subrange(4, t.len() as int);
+        lemma_valid64_chunk(r, k - 4);
+        assert(r.subrange(k - 4, k) =~= t.subrange(k, k + 4));
+    }
+}
+
+pub proof fn lemma_valid64_len(t: Seq<char>)
+    requires valid64(t),
+    ensures t.len() % 4 == 0,
+    decreases t.len()
+{
+    if t.len() != 0 {
+        lemma_valid64_len(t.subrange(4, t.len() as int));
+    }
+}
+
+pub proof fn lemma_unb64_snoc(t: Seq<char>, k: int)
+    requires 0 <= k, k % 4 == 0, k + 4 <= t.len(),
+    ensures unb64(t.subrange(0, k + 4)) == unb64(t.subrange(0, k)) + ungroup(t.subrange(k, k + 4)),
+    decreases k
+{
+    let a = t.subrange(0, k + 4);
+    if k == 0 {
+        assert(a.subrange(0, 4) =~= t.subrange(0, 4));
+        assert(a.subrange(4, 4).len() == 0);
+        assert(unb64(a.subrange(4, 4)) =~= Seq::<u8>::empty());
+        assert(unb64(t.subrange(0, 0)) =~= Seq::<u8>::empty());
+        assert(unb64(a) =~= ungroup(t.subrange(0, 4)));
+    } else {
+        let r = t.subrange(4, t.len() as int);
+        lemma_unb64_snoc(r, k - 4);
+        assert(a.subrange(0, 4) =~= t.subrange(0, 4));
+        assert(a.subrange(4, a.len() as int) =~= r.subrange(0, k));
+        let b = t.subrange(0, k);
+        assert(b.subrange(0, 4) =~= t.subrange(0, 4));
+        assert(b.subrange(4, b.len() as int) =~= r.subrange(0, k - 4));
+        assert(r.subrange(k - 4, k) =~= t.subrange(k, k + 4));
+        assert(unb64(a) =~= unb64(b) + ungroup(t.subrange(k, k + 4)));
     }
 }
